@@ -161,7 +161,8 @@ static QByteArray hmacRef(const QByteArray &key, const QByteArray &text) {
 static quint16 be16(const QByteArray &b, int p) { return quint16((quint8(b[p]) << 8) | quint8(b[p + 1])); }
 static void put16(QByteArray &b, int p, quint16 v) { b[p] = char(v >> 8); b[p + 1] = char(v & 0xff); }
 
-// plain TLV walk, stopping at the first FINGERPRINT: does every attribute (header, value, padding) lie inside the packet?
+// plain TLV walk, stopping at the first FINGERPRINT: does every attribute header and value lie inside the packet?
+// (the padding of the last attribute may be cut off: that is what the bounds check of /repo commit df53ac0 demands)
 struct Tlv { int pos; quint16 type; quint16 len; };
 static bool tlvWalk(const QByteArray &b, std::vector<Tlv> *out = nullptr) {
     int pos = 20;
@@ -169,7 +170,7 @@ static bool tlvWalk(const QByteArray &b, std::vector<Tlv> *out = nullptr) {
         if (b.size() - pos < 4) return false;
         quint16 t = be16(b, pos), l = be16(b, pos + 2);
         int n = l + (4 - l % 4) % 4;
-        if (b.size() - pos - 4 < n) return false;
+        if (b.size() - pos - 4 < l) return false;
         if (out) out->push_back({ pos, t, l });
         if (t == A_FP) return true;
         pos += 4 + n;
@@ -442,7 +443,7 @@ static QByteArray structured(Rng &r, const QByteArray &key) {
     QByteArray b = withHeader(r, body, r.below(12) != 0);
     uint32_t k = r.below(6);
     if (k == 0 && !key.isEmpty()) {  // correct MESSAGE-INTEGRITY computed by the reference HMAC
-        QByteArray pre = b; put16(pre, 2, quint16(pre.size() - 20 + 24)); b = pre + tlv(A_MI, hmacRef(key.left(64), pre));
+        QByteArray pre = b; put16(pre, 2, quint16(pre.size() - 20 + 24)); b = pre + tlv(A_MI, hmacRef(key, pre));
         if (r.coin()) {  // attributes behind MESSAGE-INTEGRITY (must be skipped), then perhaps a correct FINGERPRINT
             int extra = 1 + int(r.below(2));
             for (int i = 0; i < extra; i++) b += tlv(knownTypes[r.below(sizeof knownTypes / sizeof *knownTypes)], randBytes(r, int(r.below(3)) * 4));
@@ -482,12 +483,12 @@ int main(int argc, char **argv) {
     Args args = parseArgs(argc, argv);
     const bool thorough = args.tier == "thorough";
     Rng rng(args.seed);
-    Ctx c{ rng, thorough, 0, {} };
+    Ctx c{ rng, thorough, thorough ? 6000000 : 700000, {} };  // flip budget: the corpus below flips every bit
 
     // ---- 0. corpus: the concrete findings, replayed first
     {
         corr("reset", "ok");
-        // DATA announces 1000 bytes, 4 are present: accepted, value partly uninitialised memory (valgrind: QXmppStun.cpp:610)
+        // DATA announces 1000 bytes, 4 are present: was accepted, value partly uninitialised memory (valgrind: QXmppStun.cpp:610)
         QByteArray b = QByteArray::fromHex("000100082112a4420000000000000000000000000013" "03e8" "41424344");
         QXmppStunMessage m; bool ok = decodeLine(b, QByteArray(), true, &m);
         sample("decode(000100082112a442 00*12 0013 03e8 41424344) = " + std::string(ok ? "true" : "false") + ", data().size() = " + std::to_string(m.data().size()));
@@ -498,11 +499,17 @@ int main(int argc, char **argv) {
         corr("hmac " + hx(k100) + " " + hx(text), hx(lib));
         vline("hmac " + hx(k100) + " " + hx(text) + " " + hx(lib));
         if (lib == ref) oraclePass()++; else ofail("C14:hmac-long-key", "generateHmacSha1(key = bytes (7i+1) mod 256 for i<100, text = 'hello') = " + hx(lib) + ", RFC 2104 / QMessageAuthenticationCode = " + hx(ref));
-        // username length 4 -> 68 (bit 6 of byte 23) hides MESSAGE-INTEGRITY and FINGERPRINT from the walk
+        // username length 4 -> 68 (bit 6 of byte 23) hid MESSAGE-INTEGRITY and FINGERPRINT from the walk (before df53ac0)
         GMsg g; g.type = 1; g.id = QByteArray(12, 'i'); g.username = QByteArray("abcd");
         runMessage(c, g, QByteArray("secret"), true, 1);
-        // a 100-byte key: MESSAGE-INTEGRITY differs from RFC 2104, and keys that differ behind byte 64 are interchangeable
+        // a 100-byte key: MESSAGE-INTEGRITY differed from RFC 2104, and keys that differ behind byte 64 were interchangeable
+        // (fixed by /repo commit a1928fd; the bounds check of df53ac0 now rejects the two packets above)
         runMessage(c, g, k100, false, 0);
+        // empty USERNAME, key, fingerprint: length 0 -> 32 (bit 5 of byte 23) swallows exactly MESSAGE-INTEGRITY and
+        // FINGERPRINT, the value still ends inside the body (witness of theorem C14_defect_bitflip_accepted)
+        GMsg g0; g0.type = 1; g0.username = QByteArray("");
+        runMessage(c, g0, QByteArray(1, char(1)), true, 1);
+        runMessage(c, g0, QByteArray("secret"), true, 1);
     }
 
     // ---- 1. HMAC and CRC helpers directly: every key length 0..300
@@ -566,7 +573,6 @@ int main(int argc, char **argv) {
         sys.push_back(randMsg(rng, 100)); sys.push_back(randMsg(rng, 100));
     }
     static const int specialKeyLens[] = { 0, 1, 20, 63, 64, 65, 100, 128, 300 };
-    c.flipBudget = thorough ? 6000000 : 700000;
     {
         int i = 0;
         for (const GMsg &g : sys) {
